@@ -6,7 +6,7 @@
    depend only on that document's postings: needs the phrase-chain theorem of C03).  They are explicit
    premises here, quantified over a predicate good_posts that every postings table in the pool satisfies. *)
 From Coq Require Import ZArith.
-From SA Require Import Base.Prelude Index.Index View.View View.Purity View.Purity_Proofs.
+From SA Require Import Base.Prelude Index.Index Index.Index_Spec View.View View.Purity View.Purity_Proofs View.Purity_Gen View.Purity_Indexed.
 Open Scope N_scope.
 
 (* every output of every operation equals the history-free answer, in every state reachable from a pool
@@ -53,3 +53,44 @@ Example C07_history_example :
       nth 0 outs (RUnit (AOk tt)) = nth 9 outs (RUnit (AOk tt))
   | _ => False end.
 Proof. vm_compute. repeat split. Qed.
+
+(* ================= premise-free, for indexed corpora =================
+   For the postings of an indexed corpus both premises are PROVED on a static, boolean operation domain
+   (View/Purity_Indexed.v: ops_in_domain).  Unrestricted: term frequencies with any position range, positions,
+   docfreq, lengths, copies, cache warming, selections of in-range rows, and phrase / score queries on the root
+   array.  Restricted: on a VIEW, a phrase of >= 2 terms must have no position range and no immediately repeated
+   term (score: no immediately repeated term).  Nothing else is assumed. *)
+Theorem C07_indexed_every_output_is_history_free : forall docs bs ix cg ops outs p',
+  wf_docs docs -> index false bs docs = AOk ix ->
+  ops_in_domain docs ops -> run (init_pool ix cg) ops = (outs, p') ->
+  forall k o r, nth_error ops k = Some o -> nth_error outs k = Some r ->
+    forall r0, pure_answer (snd (run (init_pool ix cg) (firstn k ops))) o = Some r0 -> r = r0.
+Proof. exact indexed_run_pure. Qed.
+Print Assumptions C07_indexed_every_output_is_history_free.
+
+Theorem C07_indexed_repeat_same : forall docs bs ix cg ops1 outs1 p1 q r1 p1' ops2 outs2 p2 r2 p3,
+  wf_docs docs -> index false bs docs = AOk ix ->
+  ops_in_domain docs (ops1 ++ q :: ops2) ->
+  run (init_pool ix cg) ops1 = (outs1, p1) -> pure_answer p1 q <> None ->
+  step p1 q = (r1, p1') -> run p1' ops2 = (outs2, p2) -> step p2 q = (r2, p3) -> r2 = r1.
+Proof. exact indexed_repeat_same. Qed.
+
+Theorem C07_indexed_history_free : forall docs bs ix cg ops1 outs1 p1 ops2 outs2 p2 q,
+  wf_docs docs -> index false bs docs = AOk ix ->
+  ops_in_domain docs (ops1 ++ ops2) ->
+  run (init_pool ix cg) ops1 = (outs1, p1) -> run p1 ops2 = (outs2, p2) ->
+  op_in_domain_after docs ops1 q -> pure_answer p1 q <> None ->
+  fst (step p2 q) = fst (step p1 q).
+Proof. exact indexed_history_free. Qed.
+
+(* a query on the freshly indexed array answers the same after ANY in-domain history (no condition on the query) *)
+Theorem C07_indexed_history_free_initial : forall docs bs ix cg ops outs p' q,
+  wf_docs docs -> index false bs docs = AOk ix ->
+  ops_in_domain docs ops -> pure_answer (init_pool ix cg) q <> None ->
+  run (init_pool ix cg) ops = (outs, p') ->
+  fst (step p' q) = fst (step (init_pool ix cg) q).
+Proof. exact indexed_history_free_initial. Qed.
+
+(* the domain is not empty: an 18-operation history with views of views, ranged tf, phrases, scores, copies *)
+Example C07_domain_nonvacuous : ops_in_domain Purity_Proofs.ex_docs ex_ops2.
+Proof. exact (proj1 ex2_in_domain). Qed.
